@@ -20,7 +20,7 @@ ALPHABETS = [
     ("sgr", SGR + [97]), ("mixed", [97, 98, 49, 50, 32, 46, 0x5c, 0xe9, 0x1f4a9, 0x301, 95]),
     ("a-h", list(range(97, 105))),
     # tokens may be tuples: multi-code-point clusters that grex keeps whole (no mark, no control character)
-    ("clusters", [(0x1f1e9, 0x1f1ea), (0x1f1eb, 0x1f1f7), (0x1f44d, 0x1f3fd), 0x1f44d, (0x1100, 0x1161), (0x0e01, 0x0e33), 97, 120, 32, 33, 55]),
+    ("clusters", [(0x1f1e9, 0x1f1ea), (0x1f1eb, 0x1f1f7), (0x1f44d, 0x1f3fd), 0x1f44d, (0x1100, 0x1161), (0x0e01, 0x0e33), (0x0d4e, 97), (0x111c2, 107), (0x0d4e, 55), 97, 120, 32, 33, 55]),
     ("caret", [0x5e, 0x5f, 0x60, 97, 98, 0x7e, 0x7c]), ("metaext", [ord(c) for c in "(+|.a"] + [0xff9e, 0x1f3fd, 0xd4e, 0x5c]), ("dollar", [0x24, 0x25, 0x26, 0x23, 0x5d, 0x5b, 0x2d]),
 ]
 
